@@ -73,8 +73,19 @@ pub fn cfg_from_mask(mask: u32) -> walrus::ModuleConfig {
     c.strict_validate(mask & 8 != 0);
     c.generate_producers_section(mask & 16 != 0);
     c.only_stable_features(mask & 32 != 0);
+    // bits beyond the seven boolean switches: an on_instr_loc callback (the ids handed to custom sections and
+    // to the DWARF rewriter are then what the callback returns, not the input offsets)
+    if mask & 128 != 0 {
+        // injective: offset + LOC_SHIFT
+        c.on_instr_loc(|pos| walrus::InstrLocId::new((*pos as u32).wrapping_add(LOC_SHIFT)));
+    } else if mask & 256 != 0 {
+        // not injective: neighbouring instructions share an id
+        c.on_instr_loc(|pos| walrus::InstrLocId::new((*pos as u32) / 3 + 1));
+    }
     c
 }
+
+pub const LOC_SHIFT: u32 = 1_000_000;
 
 /// walrus defaults: names on, strict on, producers on
 pub const DEFAULT_CFG: u32 = 2 | 8 | 16;
